@@ -231,3 +231,157 @@ func VT_C05_SiblingPrefixFields() {
 	}
 	vt.Reach("merged")
 }
+
+// ---- repeated, map and oneof groups under update masks ----
+var compositeUpdateMasks = []*M{nil, vth.Mask("repeated_int32"), vth.Mask("map_string_string"), vth.Mask("oneof_default_int32"),
+	vth.Mask("oneof_default_nested_message"), vth.Mask("default_int64"), vth.Mask("repeated_int32", "default_int64")}
+
+func oneofInt(m *testproto.TestAllTypes) (int32, bool) {
+	x, ok := m.OneofDefault.(*testproto.TestAllTypes_OneofDefaultInt32)
+	if !ok {
+		return 0, false
+	}
+	return x.OneofDefaultInt32, true
+}
+
+func oneofMsg(m *testproto.TestAllTypes) (int32, bool) {
+	x, ok := m.OneofDefault.(*testproto.TestAllTypes_OneofDefaultNestedMessage)
+	if !ok || x.OneofDefaultNestedMessage == nil {
+		return 0, false
+	}
+	return x.OneofDefaultNestedMessage.A, true
+}
+
+func sameInts(a, b []int32) bool {
+	if len(a) != len(b) {
+		return false
+	}
+	for i := range a {
+		if a[i] != b[i] {
+			return false
+		}
+	}
+	return true
+}
+
+func sameMap(a, b map[string]string) bool {
+	if len(a) != len(b) {
+		return false
+	}
+	for k, v := range a {
+		if w, ok := b[k]; !ok || w != v {
+			return false
+		}
+	}
+	return true
+}
+
+func VT_C05_Composite() {
+	dst, src := &testproto.TestAllTypes{}, &testproto.TestAllTypes{}
+	dst.DefaultInt64, src.DefaultInt64 = vt.Int64("dst.i64"), vt.Int64("src.i64")
+	group := vt.Choose("group", 3)
+	switch group {
+	case 0:
+		vth.Repeated(dst, "dst")
+		vth.Repeated(src, "src")
+	case 1:
+		vth.Map(dst, "dst")
+		vth.Map(src, "src")
+	case 2:
+		vth.Oneof(dst, "dst")
+		vth.Oneof(src, "src")
+	}
+	update, _ := vth.PickMask("update", compositeUpdateMasks)
+	before := proto.Clone(dst).(*testproto.TestAllTypes)
+	written := proto.Clone(src).(*testproto.TestAllTypes)
+	u := vtUpdater(update, nil, nil)
+	err := u.Validate(src)
+	vt.Assert(err == nil, "valid-mask-accepted")
+	if err != nil {
+		return
+	}
+	u.Merge(dst, src)
+	in := func(p string) bool { return update == nil || vth.Covers(update, p) }
+	// the frame
+	if !in("default_int64") {
+		vt.Assert(dst.DefaultInt64 == before.DefaultInt64, "witness-out-of-scope-unchanged")
+	} else {
+		vt.Assert(dst.DefaultInt64 == written.DefaultInt64, "witness-in-scope-equals-written")
+	}
+	if !in("repeated_int32") {
+		vt.Assert(sameInts(dst.RepeatedInt32, before.RepeatedInt32), "repeated-out-of-scope-unchanged")
+	}
+	if !in("repeated_foreign_message") {
+		vt.Assert(len(dst.RepeatedForeignMessage) == len(before.RepeatedForeignMessage), "repeated-message-out-of-scope-unchanged")
+	}
+	if !in("map_string_string") {
+		vt.Assert(sameMap(dst.MapStringString, before.MapStringString), "map-out-of-scope-unchanged")
+	}
+	bi, bHasI := oneofInt(before)
+	bm, bHasM := oneofMsg(before)
+	di, dHasI := oneofInt(dst)
+	dm, dHasM := oneofMsg(dst)
+	if !in("oneof_default_int32") && !in("oneof_default_nested_message") {
+		vt.Assert(vt.And(dHasI == bHasI, dHasM == bHasM), "oneof-out-of-scope-keeps-its-arm")
+		if bHasI && dHasI {
+			vt.Assert(di == bi, "oneof-out-of-scope-keeps-its-value")
+		}
+		if bHasM && dHasM {
+			vt.Assert(dm == bm, "oneof-out-of-scope-keeps-its-value")
+		}
+	}
+	// in scope
+	if update == nil {
+		vt.Assert(sameInts(dst.RepeatedInt32, written.RepeatedInt32), "nil-mask-repeated-equals-written")
+		vt.Assert(sameMap(dst.MapStringString, written.MapStringString), "nil-mask-map-equals-written")
+		wi, wHasI := oneofInt(written)
+		wm, wHasM := oneofMsg(written)
+		vt.Assert(vt.And(dHasI == wHasI, dHasM == wHasM), "nil-mask-oneof-arm-equals-written")
+		if wHasI && dHasI {
+			vt.Assert(di == wi, "nil-mask-oneof-value-equals-written")
+		}
+		if wHasM && dHasM {
+			vt.Assert(dm == wm, "nil-mask-oneof-value-equals-written")
+		}
+	}
+	if update != nil && vth.Has(update, "repeated_int32") {
+		if len(written.RepeatedInt32) == 0 {
+			vt.Assert(len(dst.RepeatedInt32) == 0, "masked-repeated-absent-in-written-is-cleared")
+		} else {
+			// FieldMask update semantics: new values are appended to the existing repeated field
+			want := append(append([]int32(nil), before.RepeatedInt32...), written.RepeatedInt32...)
+			vt.Assert(sameInts(dst.RepeatedInt32, want), "masked-repeated-follows-fieldmask-append-semantics")
+		}
+	}
+	if update != nil && vth.Has(update, "map_string_string") {
+		if len(written.MapStringString) == 0 {
+			vt.Assert(len(dst.MapStringString) == 0, "masked-map-absent-in-written-is-cleared")
+		} else {
+			for k, v := range written.MapStringString {
+				w, ok := dst.MapStringString[k]
+				vt.Assert(vt.And(ok, w == v), "masked-map-has-the-written-entries")
+			}
+		}
+	}
+	if update != nil && vth.Has(update, "oneof_default_int32") {
+		if wi, ok := oneofInt(written); ok {
+			vt.Assert(vt.And(dHasI, di == wi), "masked-oneof-arm-set-in-written-is-written")
+		} else {
+			vt.Assert(!dHasI, "masked-oneof-arm-absent-in-written-is-cleared")
+			if bHasM {
+				vt.Assert(vt.And(dHasM, dm == bm), "other-oneof-arm-outside-the-mask-unchanged")
+			}
+		}
+	}
+	if update != nil && vth.Has(update, "oneof_default_nested_message") {
+		if wm, ok := oneofMsg(written); ok {
+			vt.Assert(vt.And(dHasM, dm == wm || wm == 0), "masked-oneof-message-arm-set-in-written-is-written")
+		} else {
+			vt.Assert(!dHasM, "masked-oneof-message-arm-absent-in-written-is-cleared")
+			if bHasI {
+				vt.Assert(vt.And(dHasI, di == bi), "other-oneof-arm-outside-the-mask-unchanged")
+			}
+		}
+	}
+	vt.Reach("merged")
+}
